@@ -963,8 +963,12 @@ class Fxp():
             else:
                 self.val = new_val
 
-            self.real = self.get_val()
-            self.imag = 0
+            if index is not None and self.vdtype == complex and np.iscomplexobj(self.val):
+                self.real = self.astype(complex).real
+                self.imag = self.astype(complex).imag
+            else:
+                self.real = self.get_val()
+                self.imag = 0
 
         else:
             # extract real and imaginary parts
@@ -1001,6 +1005,8 @@ class Fxp():
             new_val = new_val_real + 1j * new_val_imag
 
             if index is not None:
+                if not np.iscomplexobj(self.val):
+                    self.val = self.val.astype(complex)     # (a buffer of real codes can't hold the imaginary part)
                 self.val[index] = new_val
             else:
                 self.val = new_val
@@ -1012,8 +1018,8 @@ class Fxp():
         if raw:
             if vdtype is not None:
                 self.vdtype = vdtype
-        else:
-            self.vdtype = original_vdtype
+        elif index is None or self.vdtype != complex or not np.iscomplexobj(self.val):
+            self.vdtype = original_vdtype   # (a real element written into complex values leaves them complex)
 
         if self.vdtype is not None and self.vdtype != complex and np.issubdtype(self.vdtype, np.integer) and self.n_frac > 0:
             self.vdtype = float  # change to float type if Fxp has fractional part
